@@ -35,6 +35,19 @@ CHECKS = {
                 "flatten_keys/unflatten_keys round trip is C04's theorem.",
         "technique": "Coq theorems (list surgery, permutations, queue discipline) + ast-translated registry table + recorded-inverse-call correspondence",
     },
+    "C19": {
+        "text": ("Proof (Coq, partial): the shape/names/stack-dim bookkeeping of the functorch hooks — for batch sizes of ANY rank, vmap(identity, "
+                 "in_dims=i, out_dims=o) yields torch's movedim of the batch size (= batch size of the stack of the slices); every entry and nested "
+                 "node keeps the new batch size as prefix (coherent result); negative in_dims wrap against the batch rank; for lazy stacks with ANY "
+                 "member shape / member count / stack dim / vmapped dim (hidden-stack path included) / out position the lazy result has the moved "
+                 "batch size and a valid stack dim. NOT proved: vmap f = stack of f over slices for arbitrary f (functorch's batching rules are "
+                 "runtime behaviour) — that half is decided per run by the differential check: identity on all shapes rank 1..3 x all in/out dims x "
+                 "regular/lazy/named, random programs, multi-argument calls with in_dims=None, nested vmap depth 2, functional module calls with "
+                 "batched parameters, locked inputs reused across calls with in-place writes in between, each against the per-sample loop."),
+        "note": COMMON_NOTE + "functorch batching rules trusted; a refusal of functorch to batch an op (e.g. torch._foreach_* used by tensordict "
+                "arithmetic has no batching rule in this torch) is counted, not judged; out_dims taken in 0..rank. Known finding D33.",
+        "technique": "Coq theorems (list insert/remove algebra by nth-extensionality) for the bookkeeping + vmap-vs-loop differential run",
+    },
     "C18": {
         "text": ("Proof (Coq): for ALL slices/lengths the compile-only _slice_indices equals CPython's slice.indices; for ALL key objects the "
                  "Python-branch unravel functions equal the native ones and equal the in-order fringe on well-formed keys; both _parse_batch_size "
